@@ -74,7 +74,10 @@ def run(ctx):
         "of the findings D11, D12a-j, D15 and of this slice's probe in three engine states (nothing loaded / scenario / scenario + "
         "solution set), the repaired finding D14c (YearsOfErosion = 0) as the last step of a sequence, and mostly-malformed state-aware random walks "
         "(empty / header-only / ragged CSV, wrong JSON types, huge numbers, ids beyond the int range, wrong methods and content "
-        "types, unmatched paths); outcome class, status, content type, projected body and all read-only resources after every "
+        "types, unmatched paths), histories of replaced solution summaries with refused POSTs in between (labels of earlier "
+        "summaries asked for again: 404, never a panic), and HUGE bodies: malformed ones on every body-carrying write (valid "
+        "prefix + > 1 MiB filler + malformed tail, junk, 1 MiB of '[') at 4 KiB / 64 KiB / 1 MiB +-1 and 2 MiB, huge bodies on "
+        "GET / wrong content type / unmatched routes, delivered in varying chunk sizes; outcome class, status, content type, projected body and all read-only resources after every "
         "request compared with the model's.  evaluations = requests compared; distinct_nontrivial = distinct abstract requests")
     ctx.assumptions = [
         "PARTIAL: proved for the transcribed handler logic (every unchecked Go expression of the handlers is a Panic branch of the "
